@@ -73,6 +73,12 @@ def parseSeq : Nat → List String → Option (Prog × List String)
             | "ob", [a, d] => mk (match parseBool a, parseBool d with
                 | some v, some dv => some (.optBool v dv k) | _, _ => none)
             | "nb", [d] => mk ((parseBool d).map (fun dv => .noBool dv k))
+            | "g", [a] =>
+              (match a.splitOn "@" with
+               | [u] => mk ((parseInt u).map (fun v => .gtime { unix := v, off := 0 } k))
+               | [u, o] => mk (match parseInt u, parseInt o with
+                  | some v, some ov => some (.gtime { unix := v, off := ov } k) | _, _ => none)
+               | _ => none)
             | _, _ =>
               if l == "it" then
                 (match args with
@@ -106,6 +112,7 @@ def showVal : Val → String
   | .present => "+"
   | .absent => "-"
   | .presentBytes b => "+" ++ toHex b
+  | .time t => if t.off = 0 then toString t.unix else toString t.unix ++ "@" ++ toString t.off
 
 def run (p : Prog) (tail : Bytes) : String :=
   let low := buildBytes p
